@@ -27,8 +27,18 @@ ObsReg(r) == [p \in {r.reg[i].path : i \in DOMAIN r.reg} |->
 AllTypeDefs(inp) ==
   UNION {{<<mi, di>> : di \in TypeDefsOf(inp.mods[mi])} : mi \in DOMAIN inp.mods}
 
+(* records of kind "graph": a (large, random) dependency graph and the verdict the code gave.  *)
+(* C10 is evaluated with the declarative oracle computed here on the recorded input.           *)
+GraphViolated(r) ==
+  LET inp == r.input
+      unres == {r.nonterm[i] : i \in DOMAIN r.nonterm}
+  IN (IF (r.accepted /\ ~ResolvableIn(inp)) \/ (~r.accepted /\ r.isNameErr /\ ResolvableIn(inp)) THEN {"C10"} ELSE {})
+     \cup (IF ~r.accepted /\ r.isNonterm /\ FnNamesDefinedIn(inp) /\ EvalNamesDefinedIn(inp)
+              /\ unres # UnresolvablePathsOf(inp) THEN {"C10"} ELSE {})
+
 (* what the observed behaviour violates *)
 Violated(r) ==
+  IF r.kind = "graph" THEN GraphViolated(r) ELSE
   LET crate == ObsCrate(r)
       inp == r.input
       reg == ObsReg(r)
@@ -43,7 +53,8 @@ Violated(r) ==
 
 Step ==
   /\ l <= Len(Rec)
-  /\ PrintT(<<"VERDICT", ToJson([id |-> Rec[l].id, viol |-> Violated(Rec[l])])>>)
+  /\ PrintT(<<"VERDICT", ToJson([id |-> Rec[l].id, viol |-> Violated(Rec[l]),
+                                  kf |-> Rec[l].kind = "graph" /\ MentionsGeneratedIn(Rec[l].input)])>>)
   /\ l' = l + 1
 
 TraceSpec == TraceInit /\ [][Step]_l
